@@ -319,7 +319,7 @@ def check_L12(ctx, rep):
 
 # ------------------------------------------------------------------ L14
 
-def check_L14(ctx, rep):
+def check_L14(ctx, rep, scope=None, floor=3):
     """inside the inner fixpoint loops of the provider merges every step (a call that mutates the accumulated delta through a
     `&mut` argument and reports `changed`) is evaluated in every round: not under a short-circuit operator and not in a branch
     that depends on a sibling step's result."""
@@ -327,6 +327,8 @@ def check_L14(ctx, rep):
     n_steps = 0
     for path, b in sorted(cr.bodies.items()):
         if b['name'] != MERGE:
+            continue
+        if scope and ('<' + scope + '::') not in path and not path.startswith(scope + '::'):
             continue
         for lp, lparents in walk(b['tree']):
             if lp.get('k') != 'loop' or lp.get('src') != 'loop':
@@ -360,8 +362,8 @@ def check_L14(ctx, rep):
                     rep.viol('L14', path, 'conditional-step:' + fn.split('::')[-1],
                              'a step of the inner fixpoint loop is skipped when an earlier step already reported a change (%s): '
                              'its contribution for this round\'s delta is lost for good' % why, loc=cr.loc(n))
-    if n_steps < 6:
-        raise Broken('inner fixpoint steps found: %d (expected 6: three joins in trrel and trrel_uf)' % n_steps)
+    if n_steps < floor:
+        raise Broken('inner fixpoint steps found: %d (expected >= %d: the three joins of the closure loop)' % (n_steps, floor))
 
 
 def mentions_ids(n, ids):
